@@ -190,3 +190,56 @@ def tetMesh (v : List (List Rat)) : Mesh :=
       [[[0, 1, 2, 3]], [[0, 1, 2, 3, 4, 5]], [[0, 1, 2, 3]]]] }
 
 end FeatModel.Refine
+
+namespace FeatModel.Refine
+open FeatModel.Gen.Refine
+
+/-- the orientation code the refiner computes for the `k`-th face of cell `i` (the argument of `sim.map(k, ·)`) -/
+def faceCode (M : Mesh) (i k : Nat) : Int :=
+  let sv := M.tuple 3 0 i
+  let fm := (faceIndexMap M.kind 3 2 0).getD k []
+  FeatModel.Refine.compare M.kind 2 (sv.getD (fm.getD 0 0) 0) (sv.getD (fm.getD 1 0) 0) (M.tuple 2 0 (M.entry 3 2 i k))
+
+/-- the orientation codes that denote a symmetry of a 2-dimensional face -/
+def goodCodes : Kind → List Int
+  | .hypercube => [0, 1, 2, 3, 4, 5, 6, 7]
+  | .simplex => [0, 1, 2, 4, 5, 6]
+
+/-- 3-D only: every cell sees each of its faces as one of the symmetric arrangements of the face's own vertex tuple
+    (for a quadrilateral face this excludes the "twisted" orderings, which have the same vertex SET but are not
+    related to the face by an orientation code; for triangles it follows from the other clauses) -/
+def Mesh.orientOk (M : Mesh) : Bool :=
+  (List.range' 3 (M.dim - 2)).all fun _ => (List.range (M.num 3)).all fun i =>
+    (List.range (faceCount M.kind 3 2)).all fun k =>
+      (goodCodes M.kind).contains (faceCode M i k) &&
+      (List.range (faceCount M.kind 2 0)).all fun j =>
+        M.entry 2 0 (M.entry 3 2 i k) (congLookup M.kind 2 0 (faceCode M i k) j)
+          == M.entry 3 0 i (((faceIndexMap M.kind 3 2 0).getD k []).getD j 0)
+
+/-- conformity of a 3-D mesh as the refiner needs it: `consistent` plus `orientOk` -/
+def Mesh.consistent3 (M : Mesh) : Bool := M.consistent && M.orientOk
+
+end FeatModel.Refine
+
+namespace FeatModel.Refine
+
+/-- twelve times the signed volume `∫ det J` of the trilinear hexahedron with the vertex tuple `t` (FEAT numbering
+    `v_i = (i&1, i>>1&1, i>>2&1)`): Grandy's long-diagonal formula.  `checks/props/c10.py` compares it on every run
+    with the exact tensor-Simpson integral of the Jacobian determinant used by the oracle. -/
+def hexVol12 (M : Mesh) (t : List Nat) : Rat :=
+  let p := fun j d => coord M (t.getD j 0) d
+  let det3 := fun (a b c : Nat → Rat) =>
+    a 0 * (b 1 * c 2 - b 2 * c 1) - a 1 * (b 0 * c 2 - b 2 * c 0) + a 2 * (b 0 * c 1 - b 1 * c 0)
+  det3 (fun d => (p 7 d - p 1 d) + (p 6 d - p 0 d)) (fun d => p 7 d - p 2 d) (fun d => p 3 d - p 0 d)
+  + det3 (fun d => p 6 d - p 0 d) (fun d => (p 7 d - p 2 d) + (p 5 d - p 0 d)) (fun d => p 7 d - p 4 d)
+  + det3 (fun d => p 7 d - p 1 d) (fun d => p 5 d - p 0 d) (fun d => (p 7 d - p 4 d) + (p 3 d - p 0 d))
+
+/-- one hexahedron with arbitrary vertex coordinates (edges and faces in their reference orientation) -/
+def hexMesh (v : List (List Rat)) : Mesh :=
+  { kind := .hypercube, dim := 3, nums := [8, 12, 6, 1], verts := v,
+    idxData := [[], [[[0, 1], [2, 3], [4, 5], [6, 7], [0, 2], [1, 3], [4, 6], [5, 7], [0, 4], [1, 5], [2, 6], [3, 7]]],
+      [[[0, 1, 2, 3], [4, 5, 6, 7], [0, 1, 4, 5], [2, 3, 6, 7], [0, 2, 4, 6], [1, 3, 5, 7]],
+       [[0, 1, 4, 5], [2, 3, 6, 7], [0, 2, 8, 9], [1, 3, 10, 11], [4, 6, 8, 10], [5, 7, 9, 11]]],
+      [[[0, 1, 2, 3, 4, 5, 6, 7]], [[0, 1, 2, 3, 4, 5, 6, 7, 8, 9, 10, 11]], [[0, 1, 2, 3, 4, 5]]]] }
+
+end FeatModel.Refine
